@@ -122,7 +122,7 @@ func libraryFiles(dir string) ([]string, error) {
 		for _, ent := range ents {
 			name := ent.Name()
 			if ent.IsDir() {
-				if name == "zzsimrt" || name == "vendor" || name == "testdata" || strings.HasPrefix(name, ".") || strings.HasPrefix(name, "_") {
+				if name == "zzsimrt" || name == "zzclock" || name == "vendor" || name == "testdata" || strings.HasPrefix(name, ".") || strings.HasPrefix(name, "_") {
 					continue
 				}
 				subs = append(subs, name)
@@ -207,6 +207,8 @@ func Library(dir string) (*Report, error) {
 			switch im.Path.Value {
 			case `"time"`, `"math/rand"`, `"math/rand/v2"`, `"os"`, `"runtime"`:
 				rep.Unmodelled = append(rep.Unmodelled, name+" imports "+im.Path.Value)
+			case `"` + mod + `/zzclock/simtime"`: // Now/Since/Until are behind the clock seam; timers, tickers and Sleep are real
+				rep.Unmodelled = append(rep.Unmodelled, name+` imports "time"`)
 			}
 		}
 		curFunc := ""
